@@ -8,7 +8,7 @@ from fv import common, gen, tlc
 
 # which failing clause of the judge belongs to which property
 CLAUSE_PROPS = {
-    "labels_and_columns_differ_in_number": ["C04", "C17"],
+    "labels_and_columns_differ_in_number": ["C04", "C05", "C17"],
     "duplicate_labels": ["C04", "C17"],
     "common_cells_differ_from_label_meaning": ["C04"],
     "common_label_order_or_levels": ["C04"],
